@@ -15,6 +15,7 @@ type vComp struct {
 
 // the spellings of a METHOD property: any of them IS a METHOD property (the value is not looked at by the rule)
 var methodSpelling int
+var bystanders int
 
 func buildCal(method bool, comps []vComp) *ical.Calendar {
 	cal := ical.NewCalendar()
@@ -44,6 +45,27 @@ func buildCal(method bool, comps []vComp) *ical.Calendar {
 			comp.Props.Set(p)
 		case 2:
 			comp.Props.SetText(ical.PropUID, c.text)
+		}
+		// what the rule does not look at (the model is not told): times in a zone no VTIMEZONE of the object defines,
+		// other properties, nested components
+		bystanders++
+		if c.name != "VTIMEZONE" {
+			switch bystanders % 5 {
+			case 0:
+				p := ical.NewProp(ical.PropDateTimeStart)
+				p.Params.Set(ical.ParamTimezoneID, "Europe/Paris")
+				p.Value = "20240310T010000"
+				comp.Props.Set(p)
+			case 1:
+				comp.Props.SetText(ical.PropSummary, "s; with, specials\\")
+				comp.Children = append(comp.Children, &ical.Component{Name: "VALARM", Props: make(ical.Props)})
+			case 2:
+				p := ical.NewProp("X-UID")
+				p.Value = "other"
+				comp.Props.Set(p)
+			}
+		} else if bystanders%2 == 0 {
+			comp.Props.SetText(ical.PropTimezoneID, "Europe/Paris")
 		}
 		cal.Children = append(cal.Children, comp)
 	}
